@@ -16,15 +16,16 @@ import (
 
 // Prog is one loaded Go module (v1 = /repo, v2 = /repo/v2) as a type-checked SSA program.
 type Prog struct {
-	Name    string // "v1" or "v2"
-	Dir     string
-	ModPath string
-	Fset    *token.FileSet
-	Pkgs    []*packages.Package
-	SSA     *ssa.Program
-	ByRel   map[string]*ssa.Package // key: package path relative to module ("priority", "join/unite", ...)
-	Product map[string]bool         // relative paths of product packages
-	Config  string                  // build configuration label
+	Name         string // "v1" or "v2"
+	Dir          string
+	ModPath      string
+	Fset         *token.FileSet
+	Pkgs         []*packages.Package
+	SSA          *ssa.Program
+	ByRel        map[string]*ssa.Package // key: package path relative to module ("priority", "join/unite", ...)
+	Product      map[string]bool         // relative paths of product packages
+	Config       string                  // build configuration label
+	AddedProduct []string                // packages analysed because a product package imports them
 
 	funcsCache []*ssa.Function
 	selCache   map[*ssa.Select]*SelInfo
@@ -131,6 +132,28 @@ func loadProg(name, dir string, lc LoadConfig) (*Prog, error) {
 			return nil, fmt.Errorf("UNRESOLVED-ANCHOR: product package %s/%s not found", p.ModPath, rel)
 		}
 		p.Product[rel] = true
+	}
+	// packages the product packages import from their own module (a helper package split off an
+	// existing one: join/internal/interval) are analysed with them
+	for changed := true; changed; {
+		changed = false
+		for i, pk := range pkgs {
+			rel := strings.TrimPrefix(strings.TrimPrefix(pk.PkgPath, p.ModPath), "/")
+			if !p.Product[rel] || ssaPkgs[i] == nil {
+				continue
+			}
+			for ipath := range pk.Imports {
+				if ipath != p.ModPath && !strings.HasPrefix(ipath, p.ModPath+"/") {
+					continue
+				}
+				irel := strings.TrimPrefix(strings.TrimPrefix(ipath, p.ModPath), "/")
+				if p.ByRel[irel] != nil && !p.Product[irel] {
+					p.Product[irel] = true
+					p.AddedProduct = append(p.AddedProduct, irel)
+					changed = true
+				}
+			}
+		}
 	}
 	p.resolveCanonFields()
 	return p, nil
